@@ -34,7 +34,7 @@ static const char *c_opname(int k)
     return "?";
 }
 
-enum { CF_K, CF_STRAT, CF_SSEED, CF_JUNK, CF_NBLK, CF_INIT0, CF_INIT1, CF_INIT2, CF_INIT3, CF_MAINKEEPS, CF_PCTD, CF_SWITCH_PM, CF_SELFREF };
+enum { CF_K, CF_STRAT, CF_SSEED, CF_JUNK, CF_NBLK, CF_INIT0, CF_INIT1, CF_INIT2, CF_INIT3, CF_MAINKEEPS, CF_PCTD, CF_SWITCH_PM, CF_SELFREF, CF_STALL_PM };
 
 #define MAXT 4
 #define NOBJ 2                  /* shared and weak pointer objects per task */
@@ -56,6 +56,7 @@ struct task {
     struct sobj sp[NOBJ];
     struct wobj wp[NOBJ];
     unsigned waitset;           /* sched_yield: tasks that must step before this one is eligible again */
+    uint64_t stalled_until;     /* fault: the thread is off the processor (preempted, descheduled) until this scheduler step */
     int saved_inlib;
     int prio;
     int last_line;
@@ -431,14 +432,39 @@ static void task_main(int t)
 
 /* ------------------------------------------------------------ scheduler */
 
+static unsigned stall_pm; static uint64_t stall_budget;
+
 static int pick_next(void)
 {
-    int t, n = 0, el[MAXT], r = 0, runnable = 0;
-    for (t = 0; t < K; t++) if (!tk[t].done) { runnable++; if (tk[t].waitset == 0) el[n++] = t; }
+    int t, n = 0, el[MAXT], r = 0, runnable = 0; unsigned stalled = 0;
+    /* fault: a stalled thread. With a small probability per step a thread that is inside an operation is taken off
+     * the processor for 5..400 scheduler steps (a preempted lock holder: whoever waits for it spins and yields in
+     * vain, dozens of times in a row - a yielding thread does not wait for a stalled one). Bounded per run. */
+    if (stall_pm && stall_budget > 0 && gp_plan->nsched == 0 && prng_below(&sprng, 1000) < stall_pm) {
+        int cand[MAXT], nc = 0;
+        for (t = 0; t < K; t++) if (!tk[t].done && tk[t].in_op && tk[t].stalled_until <= steps) cand[nc++] = t;
+        if (nc > 0) {
+            uint64_t d = 5 + prng_below(&sprng, prng_chance(&sprng, 1, 2) ? 396 : 30);
+            if (d > stall_budget) d = stall_budget;
+            t = cand[prng_below(&sprng, (uint64_t)nc)];
+            tk[t].stalled_until = steps + d; stall_budget -= d;
+            PROBE("fault_thread_stalled"); if (d >= 150) PROBE("fault_thread_stalled_150_steps_or_more");
+            EVT("stall", t + 1, d, 0);
+        }
+    }
+    for (t = 0; t < K; t++) if (!tk[t].done && tk[t].stalled_until > steps) stalled |= 1u << t;
+    for (t = 0; t < K; t++) if (!tk[t].done) { runnable++; if ((tk[t].waitset & ~stalled) == 0 && !(stalled >> t & 1)) el[n++] = t; }
     if (runnable == 0) return -1;
-    if (n == 0) {               /* everyone is waiting for someone: nobody is */
-        for (t = 0; t < K; t++) tk[t].waitset = 0;
-        for (t = 0; t < K; t++) if (!tk[t].done) el[n++] = t;
+    if (n == 0) {
+        /* everyone is stalled or waiting for someone: the stall with the earliest end is over now; if nobody is
+         * stalled, everyone is waiting for someone, so nobody is */
+        int first = -1;
+        for (t = 0; t < K; t++) if (stalled >> t & 1) if (first < 0 || tk[t].stalled_until < tk[first].stalled_until) first = t;
+        if (first >= 0 && (tk[first].waitset & ~stalled & ~(1u << first)) == 0) { tk[first].stalled_until = 0; el[n++] = first; }
+        else {
+            for (t = 0; t < K; t++) { tk[t].waitset = 0; tk[t].stalled_until = 0; }
+            for (t = 0; t < K; t++) if (!tk[t].done) el[n++] = t;
+        }
     }
     if (gp_plan->nsched > 0) {
         /* explicit schedule (replay / shrinking); beyond its end: round robin */
@@ -590,7 +616,7 @@ static void c_exec(const plan_t *p)
     memset(cleared, 0, sizeof cleared); memset(freed_payload, 0, sizeof freed_payload); memset(freed_book, 0, sizeof freed_book);
     for (t = 0; t < MAXT; t++) {
         struct task *T = &tk[t];
-        T->done = t >= K; T->in_op = 0; T->pc = 0; T->nops = 0; T->waitset = 0; T->saved_inlib = 0; T->steps = 0; T->last_line = 0;
+        T->done = t >= K; T->in_op = 0; T->pc = 0; T->nops = 0; T->waitset = 0; T->stalled_until = 0; T->saved_inlib = 0; T->steps = 0; T->last_line = 0;
         T->lock_inflight = 0; T->prio = 0;
         for (i = 0; i < NOBJ; i++) { cstl_shared_ptr_init(&T->sp[i].p); set_owner(&T->sp[i], -1); cstl_weak_ptr_init(&T->wp[i].p); T->wp[i].known = -1; }
     }
@@ -648,7 +674,8 @@ static void c_exec(const plan_t *p)
         tsan_fiber[t] = __tsan_create_fiber(0); tsan_started[t] = 0;
 #endif
     }
-    cap = 64 * (uint64_t)(totalops + K) + 64;
+    stall_pm = (unsigned)p->cfg[CF_STALL_PM]; stall_budget = stall_pm ? 800 : 0;
+    cap = 64 * (uint64_t)(totalops + K) + 64 + 2 * stall_budget;
     /* the interleaving hash starts from the scenario (everything but the scheduler's own parameters) */
     g_run.statehash = 0xcbf29ce484222325ull;
     g_run.statehash = fnv1a(g_run.statehash, (uint64_t)K * 4 + (uint64_t)nblk);
@@ -705,6 +732,7 @@ static void c_gen(prng_t *r, int mode, plan_t *p)
     p->cfg[CF_PCTD] = prng_below(r, 4);
     p->cfg[CF_SWITCH_PM] = 50 + prng_below(r, 600);
     p->cfg[CF_SELFREF] = prng_chance(r, 1, 3) ? 1 + prng_below(r, 3) : 0;
+    p->cfg[CF_STALL_PM] = prng_chance(r, 1, 3) ? 5 + prng_below(r, 60) : 0;
     p->cfg[CF_MAINKEEPS] = prng_chance(r, 1, 5) ? prng_below(r, 4) : 0;
     if (scenario >= 6) {
         /* the canonical race family, one operation per thread: `nown` owners each reset, everybody else locks a
